@@ -53,3 +53,10 @@ pub open spec fn split_at(s: Seq<char>, c: char) -> Seq<Seq<char>> decreases s.l
         p.drop_last().push(p.last().push(s.last()))
     }
 }
+
+pub proof fn lemma_bucket_in_index(cache: PathV, key: Seq<char>)
+    ensures under(bucket_path_spec(cache, key), index_dir(cache)), bucket_path_spec(cache, key).comps.len() == cache.comps.len() + 4
+{
+    let d = index_dir(cache).comps; let r = bucket_rel(key);
+    assert((d + r).subrange(0, d.len() as int) =~= d);
+}
